@@ -225,6 +225,12 @@ func (m *StateMachine) handleCatchupEvent(
 			if !m.handleFinalization(ctx, rlc, resp) {
 				return false
 			}
+
+			// Handling the finalization entered the next height,
+			// which may be a live round rather than another replay.
+			// Return to the kernel loop so it picks the right event handler;
+			// staying here would ignore every live event from now on.
+			return true
 		}
 	}
 }
